@@ -8,3 +8,6 @@ def run(ctx, rep):
     from ..rules import misc
     misc.rule_usepr_shared(mod, rep)
     misc.rule_refact_refresh(mod, rep)
+    from ..rules import alloc, more
+    alloc.rule_O7_bound_before_bump(mod, rep)          # extents stay inside their arrays: every cursor bump is checked against its own limit
+    more.rule_super_bnd_test(mod, rep)
